@@ -22,6 +22,7 @@ type impFn struct {
 	retSelf    bool            // the single result is the receiver pointer itself
 	bigFresh   map[string]bool // big.Int variables currently bound to a fresh object (pool.BigInt.Get): may be overwritten
 	bigUninit  map[string]bool // … whose contents have not been set yet: may not be read
+	bigDead    map[string]bool // … that have been given back to the pool (pool.BigInt.Put): may not be used any more
 	evRecv     bool            // the "receiver" is the event list of a callback parameter
 	fuels      []string        // explicit fuel parameters (loops without a recognised counting pattern)
 	usesNumCPU bool
@@ -59,7 +60,8 @@ type ictx struct {
 var leanReserved = map[string]bool{"end": true, "from": true, "at": true, "show": true, "then": true, "fun": true, "open": true, "by": true, "do": true, "in": true,
 	"have": true, "let": true, "match": true, "with": true, "if": true, "else": true, "def": true, "theorem": true, "where": true, "namespace": true, "section": true,
 	"instance": true, "structure": true, "class": true, "Type": true, "Prop": true, "Sort": true, "this": true, "W": true, "H": true, "rest_": true, "ret_": true,
-	"some": true, "none": true, "len": true, "copy": true, "index": true, "deref": true, "makeBytes": true, "bytesOfString": true, "numCPU": true, "fuel_": true, "shl64": true, "uintOfInt": true, "min": true, "max": true, "hSize": true, "hBlockSize": true, "copyAt": true, "setAt": true, "byteOfInt": true, "mul": true, "one": true, "inv": true, "F": true}
+	"some": true, "none": true, "len": true, "copy": true, "index": true, "deref": true, "makeBytes": true, "bytesOfString": true, "numCPU": true, "fuel_": true, "shl64": true, "uintOfInt": true, "min": true, "max": true, "hSize": true, "hBlockSize": true, "copyAt": true, "setAt": true, "byteOfInt": true, "mul": true, "one": true, "inv": true, "F": true,
+	"Bytes": true, "zeroF": true, "setBigIntF": true, "modulus": true, "default": true, "makeSlice": true, "sliceOf": true, "bigCmp": true, "bigMod": true, "bigSetBytes": true}
 
 func lname(n string) string {
 	if leanReserved[n] {
@@ -194,10 +196,17 @@ func (f *impFn) expr(e ast.Expr, want *ity, c *ictx) (string, *ity) {
 			if f.bigUninit[v.Name] {
 				p.die(e, "%s is read before the fresh big.Int it points to has been set", v.Name)
 			}
+			if f.bigDead[v.Name] {
+				p.die(e, "%s is used after pool.BigInt.Put(%s)", v.Name, v.Name)
+			}
 			return lname(v.Name), t
 		}
 		if _, ok := p.errVars[v.Name]; ok {
 			return v.Name, tyErr
+		}
+		if _, ok := p.consts[v.Name]; ok { // package-level integer constant (mode h2f)
+			p.useConst(v.Name)
+			return lname(v.Name), tyInt
 		}
 		p.die(e, "unknown identifier %s", v.Name)
 	case *ast.SelectorExpr:
@@ -514,6 +523,8 @@ func (f *impFn) call(v *ast.CallExpr, want *ity, c *ictx) (string, *ity) {
 					return "bigSign " + xs, tyInt
 				case se.Sel.Name == "BitLen" && len(v.Args) == 0:
 					return "bigBitLen " + xs, tyInt
+				case se.Sel.Name == "Cmp" && len(v.Args) == 1 && p.tg.mode == "h2f":
+					return "bigCmp " + xs + " " + parenImp(f.bigArg(v.Args[0], c)), tyInt
 				case se.Sel.Name == "Bit" && len(v.Args) == 1:
 					is, it := f.expr(v.Args[0], tyInt, c)
 					if it.k != "int" {
@@ -647,6 +658,14 @@ func (f *impFn) call(v *ast.CallExpr, want *ity, c *ictx) (string, *ity) {
 				p.die(v, "make length")
 			}
 			return "makeBytes " + parenImp(ns), t
+		}
+		if t.k == "slice" && t.elem.k == "elem" && len(v.Args) == 2 && p.tg.mode == "h2f" {
+			// make([]Element, n): n zero values of the element type (`default`; a negative n panics in Go: not modelled)
+			ns, nt := f.expr(v.Args[1], tyInt, c)
+			if nt.k != "int" {
+				p.die(v, "make length")
+			}
+			return "(makeSlice " + parenImp(ns) + " : List F)", t
 		}
 		p.die(v, "make(%v, …)", t)
 	case "append":
